@@ -17,7 +17,13 @@ from typing import Any
 
 # ---------------------------------------------------------------- expression forms
 
-EXPR_FORMS = [
+# paths that start with a bracketed name and/or end in a shorthand index (env.shorthand_indexes)
+SHORTHAND_FORMS = [
+    "['some thing'].0", '["a"].0', "a['b'].0.1", "['a'].0.b", "[a].0", "['a'][0].1", "a.0", "a.0.1[b.0]", "['a'].-1", "['a'].0 | upcase",
+    '"${ [\'a\'].0 }"', "['a'] .0", "['a'].0 ", "[ 'a' ].0", "['a'].0[1]", "a[b.0].1", "['a']. 0", "['a'].0.", "['a'].00", "items.0.a", "['items'].1.b",
+]
+
+EXPR_FORMS = SHORTHAND_FORMS + [
     "x", "a.b", "a.b[c.d]['e'][0]", "a[b]", "a['k']", "a[0]", "a[-1]", "items",
     "'s'", '"s"', "''", '"a${x}b"', "'${ x | upcase }'", '"${ a.b }${ 1 }"', '"${ \'n${x}\' }"',
     "x | upcase", "x | default: 1", "x | default: 'd', allow_false: true", "items | map: 'a' | first",
@@ -199,8 +205,10 @@ def subscript_cases(r: random.Random, tier: str) -> list[tuple[str, dict[str, An
 
 # ---------------------------------------------------------------- environment configurations
 
-# (resource limits on, suppress_blank_control_flow_blocks, auto_escape)
-CONFIGS: list[tuple[bool, bool, bool]] = [(lim, sup, esc) for lim in (True, False) for sup in (True, False) for esc in (False, True)]
+# (resource limits on, suppress_blank_control_flow_blocks, auto_escape, shorthand_indexes)
+# ... and env.shorthand_indexes (`a.0`, `['a b'].0`): a lexer/parser configuration bit
+CONFIGS: list[tuple[bool, bool, bool, bool]] = [(lim, sup, esc, sh) for sh in (False, True) for lim in (True, False)
+                                                for sup in (True, False) for esc in (False, True)]
 
 
 # ---------------------------------------------------------------- blank blocks x buffer-using tags
@@ -347,3 +355,9 @@ def data_argument_cases(r: random.Random, tier: str, filter_names: list[str]) ->
                 out.append(("{% for q in (1..2) %}{% assign " + var + " = forloop %}" + shape + "{% endfor %}", d))
             del wrapped
     return out
+
+
+def shorthand_cases() -> list[tuple[str, dict[str, str], dict[str, Any]]]:
+    """Every bracket-rooted / shorthand-index path form in every hole (run with shorthand_indexes on)."""
+    data = dict(EXPR_DATA, **{"some thing": ["x", "y"], "a b": [[1, 2]]})
+    return [(hole.replace("{E}", e), EXPR_TEMPLATES, data) for hole in TAG_HOLES for e in SHORTHAND_FORMS]
